@@ -173,10 +173,16 @@ func (u *Unreliable) receive(pkt *frame) error {
 		return ErrBadTubeState
 	}
 
-	select {
-	case u.recv.C <- pkt.data:
-	default:
-		return nil
+	// A FIN frame carries no message: queueing its empty payload would hand the
+	// reader a zero-length message that nobody wrote.
+	if !pkt.flags.FIN || len(pkt.data) > 0 {
+		select {
+		case u.recv.C <- pkt.data:
+		default:
+			if !pkt.flags.FIN {
+				return nil
+			}
+		}
 	}
 	if pkt.flags.FIN {
 		u.recv.Close()
